@@ -143,6 +143,12 @@ def extra_vectors(name, rng, n=6):
         for sf, ff in ((0.00001, 1.0), (0.0005, 0.25), (1e-7, 0.999999), (rng.random() / 10 ** rng.randint(3, 9), rng.random())):
             out.append(('{"report_to": "default", "max_age": 2592000, "success_fraction": %s, "failure_fraction": %s}' % (format(sf, '.12f').rstrip('0'), repr(ff))).encode('ascii'))
         return out
+    if short == 'SignedCertificateTimestamp':
+        # RFC 6962 3.2: a 64-bit count of milliseconds; far-future values, where a double no longer holds a millisecond exactly
+        from harness import sweep as _sweep
+        vs = [v for c, l in _sweep.library_vectors().items() if _sweep.qualname(c) == name for v in l if len(v) >= 43][:2]
+        stamps = [8589934591999, 8589934592001, 12515071833071, 193337143925430, 253402300799998, rng.randrange(2 ** 33 * 1000, 253402300799999)]
+        return [v[:35] + t.to_bytes(8, 'big') + v[43:] for v in vs for t in stamps]
     if short == 'TlsHandshakeClientHello':
         # client hellos carrying the signalling suites (RFC 7507 TLS_FALLBACK_SCSV, RFC 5746 TLS_EMPTY_RENEGOTIATION_INFO_SCSV),
         # one, the other, both: the repository vectors carry neither
